@@ -59,6 +59,7 @@ func checkC11(ctx *Ctx, r *Report) {
 	// the Go side of the omission agreement
 	c01GoWireNames(ctx, r)
 	c11HuntedRules(ctx, r)
+	c02PythonIdentifierCharacters(ctx, r)
 	c11ThirdRound(ctx, r)
 	c06NullableGuardExact(ctx, r)
 	c11HintMonotone(ctx, r)
